@@ -36,6 +36,9 @@ type Case struct {
 	Chunk     uint32  `json:"chunk"`
 	Streams   int     `json:"streams"`
 	Conns     int     `json:"conns"`
+	// ChunkSeq: the chunk size the sender's parameter source answers at its k-th call (the last
+	// value sticks): parameters are resolved once at the start and once per file
+	ChunkSeq []uint32 `json:"chunk_seq,omitempty"`
 	Resume    bool    `json:"resume"`     // receiver-side resume (the sender always asks, as in production)
 	SendNoRes bool    `json:"send_nores"` // sender with Resume off (library default)
 	NoRootDir bool    `json:"norootdir"`
@@ -54,7 +57,11 @@ func (c Case) String() string {
 			fs = append(fs, fmt.Sprintf("%s:%d", e.Path, e.Size))
 		}
 	}
-	return fmt.Sprintf("tree[%s] chunk=%d streams=%d conns=%d resume=%v norootdir=%v scanpaths=%v pre=%s lat=%dms", strings.Join(fs, " "), c.Chunk, c.Streams, c.Conns, c.Resume, c.NoRootDir, c.ScanPaths, c.Pre, c.LatencyMs)
+	seq := ""
+	if len(c.ChunkSeq) > 0 {
+		seq = fmt.Sprintf(" chunkseq=%v", c.ChunkSeq)
+	}
+	return fmt.Sprintf("tree[%s] chunk=%d%s streams=%d conns=%d resume=%v norootdir=%v scanpaths=%v pre=%s lat=%dms", strings.Join(fs, " "), c.Chunk, seq, c.Streams, c.Conns, c.Resume, c.NoRootDir, c.ScanPaths, c.Pre, c.LatencyMs)
 }
 
 var scratch string
@@ -176,6 +183,18 @@ func sendOpts(p *Prepared) transfer.Options {
 	o := transfer.Options{ChunkSize: p.Case.Chunk, ParallelFiles: p.Case.Streams, Resume: !p.Case.SendNoRes, ResumeVerifyTail: p.Case.Tail}
 	if p.Resolve != nil {
 		o.ResolveFilePath = p.Resolve
+	}
+	if seq := p.Case.ChunkSeq; len(seq) > 0 {
+		k := 0
+		streams := p.Case.Streams
+		o.ParamSource = func() transfer.RuntimeParams {
+			cs := seq[len(seq)-1]
+			if k < len(seq) {
+				cs = seq[k]
+			}
+			k++
+			return transfer.RuntimeParams{ChunkSize: cs, ParallelFiles: streams}
+		}
 	}
 	return o
 }
